@@ -412,6 +412,10 @@ func ReadWeatherCSV(VWDAT string, startyear int, g *GlobalVarsMain, s *WeatherDa
 			first = false
 			T = d.datetime.YearDay()
 			yrz = 1
+			// the days of the start year before the first record stay empty: the simulation must not start there
+			if firstDay := int(d.datetime.Sub(time.Date(1900, 12, 31, 0, 0, 0, 0, time.UTC)).Hours() / 24); g.BEGINN > 0 && firstDay > g.BEGINN {
+				return fmt.Errorf("%s Failed to parse file: %s, error: first record %s is after the start of the simulation", g.LOGID, VWDAT, d.datetime.Format("2006-01-02"))
+			}
 		} else if d.datetime.Day() == 1 && d.datetime.Month() == time.January {
 			T = 1
 			yrz = yrz + 1
@@ -550,6 +554,10 @@ func ReadWeatherCZ(VWDAT string, startyear int, g *GlobalVarsMain, s *WeatherDat
 			first = false
 			T = d.datetime.YearDay()
 			yrz = 1
+			// the days of the start year before the first record stay empty: the simulation must not start there
+			if firstDay := int(d.datetime.Sub(time.Date(1900, 12, 31, 0, 0, 0, 0, time.UTC)).Hours() / 24); g.BEGINN > 0 && firstDay > g.BEGINN {
+				return fmt.Errorf("%s Failed to parse file: %s, error: first record %s is after the start of the simulation", g.LOGID, VWDAT, d.datetime.Format("2006-01-02"))
+			}
 		} else if d.datetime.Day() == 1 && d.datetime.Month() == time.January {
 			T = 1
 			yrz = yrz + 1
